@@ -13,7 +13,8 @@ pub enum WidthProfile {
     Tiny,
     /// 1..=8
     Small,
-    /// the classes of the properties: 1, 2..8, 31..33, 63..65, 127..129, 130..200
+    /// the boundary classes 1, 2..8, 31..33, 63..65, 127..129, 130..200, plus any width 9..126 and a few
+    /// widths of 3 to 9 words
     Wide,
 }
 
@@ -53,13 +54,17 @@ pub fn pick_width(t: &mut Tape, p: WidthProfile) -> u32 {
     match p {
         WidthProfile::Tiny => t.range(1, 4),
         WidthProfile::Small => t.range(1, 8),
-        WidthProfile::Wide => match t.weighted(&[3, 5, 3, 3, 2, 1]) {
+        WidthProfile::Wide => match t.weighted(&[3, 5, 3, 3, 2, 1, 2, 1]) {
             0 => 1,
             1 => t.range(2, 8),
             2 => t.range(31, 33),
             3 => t.range(63, 65),
             4 => t.range(127, 129),
-            _ => t.range(130, 200),
+            5 => t.range(130, 200),
+            // no width is special to the generator: everything between the boundary classes, and
+            // a few words beyond them (multiples of 64 included)
+            6 => t.range(9, 126),
+            _ => *t.pick(&[192u32, 255, 256, 257, 320, 384, 500, 512, 513]),
         },
     }
 }
